@@ -26,6 +26,8 @@ import ast
 from .. import Undecided
 from ..expr import canon, lin, call_name, unparse, negate, conj
 from ..model import stmt_text
+from ..expr import cmp_form
+from ..lts import Classifier, extract, equivalent, compile_spec, seq, alt, star, lit, opt
 
 EXPLANATION = __doc__
 LEVEL_RULE = 'one obligation per clause instance on the paths / loop summaries of Sequence, Optional, Ref and the normalisers'
@@ -54,149 +56,167 @@ def elem_unpacks(p):
     return [e for e in p.all_effects() if e.kind == 'call' and canon(e.call.func) == 'self.prototype_field.unpack']
 
 
+class _SeqEvents(Classifier):
+    """events of Sequence.unpack (what the declared semantics speaks about)"""
+
+    def __init__(self, mode, params):
+        self.mode = mode                     # dict when / count / until -> bool (is set)
+        self.PKT, self.RAW, self.OFF = params
+        self.stored = None
+
+    def _args(self, c, off_ok):
+        kw = {k.arg: canon(k.value) for k in c.keywords if k.arg}
+        pos = [canon(a) for a in c.args]
+        pkt_ok = kw.get('pkt') == self.PKT or (pos and pos[0] == self.PKT)
+        raw_ok = kw.get('raw') == self.RAW or (len(pos) > 1 and pos[1] == self.RAW)
+        off = kw.get('offset') if 'offset' in kw else (pos[2] if len(pos) > 2 else None)
+        star = any(k.arg is None for k in c.keywords)
+        return pkt_ok and raw_ok and off is not None and off_ok(off) and star
+
+    def call(self, c):
+        f = canon(c.func)
+        cursor = lambda o: o == '<ev parse>'
+        entry = lambda o: o == self.OFF
+        anywhere = lambda o: o == self.OFF or o == '<ev parse>' or o.startswith(self.OFF + '@L') or ('<ev parse>' in o) or (self.OFF in o)
+        if f == 'setattr' and len(c.args) == 3 and canon(c.args[1]) == 'self.field_name':
+            v = canon(c.args[2])
+            if canon(c.args[0]) == self.PKT and v.startswith('<fresh list'):
+                self.stored = v
+                return ('store-fresh-list', ())
+            return ('store[%s]' % v[:40], ())
+        if f == 'self.get_how_many_elements':
+            return ('count' if self._args(c, entry) else 'count[wrong arguments]', ())
+        if f == 'self.when':
+            return ('when' if self._args(c, entry) else 'when[wrong arguments]', ('+', '-'))
+        if f == 'self.until_condition':
+            return ('until' if self._args(c, cursor) else 'until[not given the cursor after the element]', ('+', '-'))
+        if f == 'self.prototype_field.unpack':
+            return ('parse' if self._args(c, anywhere) else 'parse[wrong arguments]', ())
+        if isinstance(c.func, ast.Attribute) and c.func.attr == 'append' and len(c.args) == 1:
+            recv = canon(c.func.value)
+            if recv.startswith('<fresh list') or recv == self.stored:
+                good = recv == self.stored and canon(c.args[0]) == 'getattr(%s, self.seq_elem_field_name)' % self.PKT
+                return ('append' if good else 'append[%s to %s]' % (canon(c.args[0])[:40], recv[:24]), ())
+        if isinstance(c.func, ast.Attribute) and c.func.attr in ('extend', 'insert', 'pop', 'remove', 'clear', '__setitem__', 'sort', 'reverse') \
+                and canon(c.func.value).startswith('<fresh list'):
+            return ('list.%s' % c.func.attr, ())
+        return None
+
+    def truth(self, text, e):
+        m = {'self.when': self.mode['when'], 'self.until_condition': self.mode['until'], 'self.get_how_many_elements': self.mode['count']}
+        for k, v in m.items():
+            if text == k or text == '(%s is not None)' % k:
+                return v
+            if text == '(%s is None)' % k:
+                return not v
+        return None
+
+    def test(self, text, e):
+        f = cmp_form(e)
+        if f is not None:
+            form, op = f
+            if set(k for k in form if k != 1) == {'<ev count>'} and form.get('<ev count>') in (1, -1):
+                # integer threshold on the count: n <= c
+                s_, c_ = form['<ev count>'], form.get(1, 0)
+                if s_ == 1 and op in ('<', '<='):
+                    thr = -c_ - (1 if op == '<' else 0)
+                    return 'count<=%d' % thr
+                if s_ == -1 and op in ('<', '<='):
+                    thr = c_ + (1 if op == '<' else 0)          # -n + c < 0  <=>  n > c ... n >= thr
+                    return 'count>=%d' % thr
+        return None
+
+    def ret(self, v):
+        if v is None:
+            return 'None'
+        t = canon(v)
+        if t == self.OFF:
+            return 'incoming offset'
+        if t == '<ev parse>' or t.startswith(self.OFF + '@L'):
+            return 'cursor'
+        return 'other: %s' % t[:40]
+
+
+def _seq_spec(mode):
+    E = seq(lit('parse'), lit('append'))
+    fresh = lit('store-fresh-list')
+    if mode['count']:
+        body = seq(lit('for[range(<ev count>)]'), star(seq(lit('next'), E)), lit('end'), lit('return[cursor]'))
+        if mode['when']:
+            tail = alt(seq(lit('count<=0+'), lit('return[incoming offset]')),
+                       seq(lit('count<=0-'), alt(seq(lit('when-'), lit('return[incoming offset]')), seq(lit('when+'), body))))
+        else:
+            tail = body
+        return seq(fresh, lit('count'), tail)
+    ub = seq(E, star(seq(lit('until-'), E)), lit('until+'), lit('return[cursor]'))
+    if mode['when']:
+        return seq(fresh, alt(seq(lit('when-'), lit('return[incoming offset]')), seq(lit('when+'), ub)))
+    return seq(fresh, ub)
+
+
+def sequence_modes(ctx, sq):
+    """(count set?, until set?) combinations Sequence._compile can leave behind; when is free"""
+    repo = ctx.repo
+    comp = sq.methods.get('_compile')
+    if comp is None:
+        raise Undecided('Sequence._compile not found')
+    combos = set()
+    for p in repo.walker(max_paths=ctx.max_paths).paths(comp.node, cls=sq):
+        if p.raises():
+            continue
+        last = {}
+        for e in p.effects:
+            if e.kind == 'store_attr' and canon(e.obj) == 'self' and e.name in ('get_how_many_elements', 'until_condition'):
+                last[e.name] = not (isinstance(e.value, ast.Constant) and e.value.value is None)
+        if len(last) == 2:
+            combos.add((last['get_how_many_elements'], last['until_condition']))
+    return combos
+
+
 def check_sequence_unpack(ctx, sq):
+    """the events of Sequence.unpack (store the fresh list, count / when / until callbacks with
+    their outcomes, child parse, append, returned offset) form, in every mode _compile can set
+    up, exactly the language the declared semantics prescribes -- however the loops are written"""
     repo = ctx.repo
     fi = sq.methods.get('unpack')
     rule = 'C08-sequence-unpack'
-    # (a) source level: the list local
-    lst = None
-    for n in ast.walk(fi.node):
-        if isinstance(n, ast.Assign) and isinstance(n.targets[0], ast.Name) and (isinstance(n.value, ast.List) and not n.value.elts or (isinstance(n.value, ast.Call) and call_name(n.value) == 'list' and not n.value.args)):
-            lst = n.targets[0].id
-            break
-    if lst is None:
-        ctx.violation(rule, fi, 'Sequence.unpack', 'no fresh list is created for the parsed elements', fi.node.lineno, clause='a')
+    if fi is None:
+        raise Undecided('Sequence.unpack not found')
+    a = fi.node.args
+    names = [x.arg for x in a.posonlyargs + a.args]
+    if len(names) < 4:
+        raise Undecided('Sequence.unpack does not take (self, pkt, raw, offset)')
+    params = tuple(names[1:4])
+    combos = sequence_modes(ctx, sq)
+    if combos != {(True, False), (False, True)}:
+        ctx.violation(rule, sq.methods['_compile'], 'Sequence._compile leaves (count set, until set) in %s' % sorted(combos),
+                      'a repeated field must be compiled to exactly one of count mode / until mode', sq.methods['_compile'].node.lineno, clause='c')
         return
-    aliases = {lst}
-    app_alias = set()
-    for n in ast.walk(fi.node):
-        if isinstance(n, ast.Assign) and isinstance(n.targets[0], ast.Name) and isinstance(n.value, ast.Attribute) and n.value.attr == 'append' \
-                and isinstance(n.value.value, ast.Name) and n.value.value.id in aliases:
-            app_alias.add(n.targets[0].id)
-    stores = [n for n in ast.walk(fi.node) if isinstance(n, ast.Call) and isinstance(n.func, ast.Name) and n.func.id == 'setattr' and len(n.args) == 3
-              and canon(n.args[1]) == 'self.field_name']
-    if len(stores) != 1 or not (isinstance(stores[0].args[2], ast.Name) and stores[0].args[2].id == lst):
-        ctx.violation(rule, fi, 'setattr(pkt, self.field_name, ...)', 'the list stored under the field name is not the list the elements are appended to', fi.node.lineno, clause='a')
-    else:
-        ctx.holds(rule, fi, 'setattr(pkt, self.field_name, %s)' % lst, 'the stored list is the one being filled', stores[0].lineno, clause='a')
-    appends = [n for n in ast.walk(fi.node) if isinstance(n, ast.Call) and ((isinstance(n.func, ast.Name) and n.func.id in app_alias) or
-               (isinstance(n.func, ast.Attribute) and n.func.attr == 'append'))]
-    for a in appends:
-        ok = (isinstance(a.func, ast.Name)) or (isinstance(a.func.value, ast.Name) and a.func.value.id in aliases)
-        if not ok:
-            ctx.violation(rule, fi, stmt_text(a), 'elements are appended to a different list', a.lineno, clause='a')
-    w = repo.walker(max_paths=ctx.max_paths)
-    paths = w.paths(fi.node, cls=sq)
-    ctx.unit('paths', len(paths))
-    saw_skip = saw_main = False
-    for p in paths:
-        if p.raises():
-            continue
-        effs = list(p.effects)
-        # (a) order
-        first_store = next((i for i, e in enumerate(effs) if e.kind == 'setattr' and canon(e.name) == 'self.field_name'), None)
-        first_cb = next((i for i, e in enumerate(effs) if e.kind == 'call' and canon(e.call.func) in ('self.get_how_many_elements', 'self.when', 'self.until_condition')), None)
-        if first_store is None or (first_cb is not None and first_cb < first_store):
-            ctx.violation(rule, fi, 'order of effects: %s' % [e.text()[:50] for e in effs[:4]], 'count / when / until are evaluated before the fresh list is stored: callbacks see the previous list', fi.node.lineno, clause='a')
-            continue
-        loops = [e for e in effs if e.kind == 'loop']
-        if not loops:
-            # ---- (b) skip path
-            saw_skip = True
-            r = p.ret()
-            gt = gtexts(p)
-            st = 'skip path [%s] returns %s' % ('; '.join(sorted(gt))[:140], canon(r) if r is not None else None)
-            if elem_unpacks(p):
-                ctx.violation(rule, fi, st, 'an element is parsed although the sequence is skipped', fi.node.lineno, clause='b')
-            elif r is None or canon(r) != 'offset':
-                ctx.violation(rule, fi, st, 'a skipped sequence must consume nothing (return the incoming offset)', fi.node.lineno, clause='b')
-            elif not any('self.when' in g for g in gt):
-                ctx.violation(rule, fi, st, 'the sequence is skipped on a path that does not depend on the when condition', fi.node.lineno, clause='b')
+    ctx.holds(rule, sq.methods['_compile'], 'Sequence._compile: count mode xor until mode', 'the two modes analysed below are the only ones', sq.methods['_compile'].node.lineno, clause='c')
+    for count_set, until_set in sorted(combos):
+        for when_set in (False, True):
+            mode = {'count': count_set, 'until': until_set, 'when': when_set}
+            name = '%s mode, %s' % ('count' if count_set else 'until', 'with when' if when_set else 'no when')
+            ctx.unit('modes')
+            try:
+                code = extract(fi.node, _SeqEvents(mode, params))
+            except Undecided as e:
+                ctx.undecided(rule, fi, name, str(e), fi.node.lineno, clause='c')
+                continue
+            ctx.unit('automaton_states', code.n)
+            diff = equivalent(code, compile_spec(_seq_spec(mode)))
+            if diff is None:
+                ctx.holds(rule, fi, '%s: event language of Sequence.unpack' % name,
+                          'fresh list stored first; %s; every pass parses one element and appends the scratch value; the cursor after the last element is returned'
+                          % ('range(count) elements, nothing consumed when count <= 0 or when is false' if count_set else 'one element, then until after each element, stop on the first truthy result'),
+                          fi.node.lineno, clause='c')
             else:
-                ok_when = any(is_cb_call(e, 'when') and all(a in canon(e.call) for a in CALLARGS) for e in effs)
-                if ok_when:
-                    ctx.holds(rule, fi, 'when false -> return offset, no element parsed', 'empty list, nothing consumed', fi.node.lineno, clause='b')
+                trace, which = diff
+                if which == 'only-first':
+                    why = 'the code can do [%s] after [%s]; the declared semantics does not allow it there' % (trace[-1], ' '.join(trace[:-1]))
                 else:
-                    ctx.violation(rule, fi, st, 'the when condition is not called with (pkt, raw, offset, **k)', fi.node.lineno, clause='b')
-            continue
-        saw_main = True
-        fors = [e for e in loops if e.sub['kind'] == 'for']
-        whiles = [e for e in loops if e.sub['kind'] == 'while']
-        if len(fors) != 1 or len(whiles) != 1:
-            ctx.undecided(rule, fi, 'loops: %d for, %d while' % (len(fors), len(whiles)), 'expected one count loop and one until loop', fi.node.lineno, clause='c')
-            continue
-        fl, wl = fors[0], whiles[0]
-        # ---- (c) count loop
-        it = canon(fl.sub['iter'])
-        want_it = 'range((1 if not self.get_how_many_elements else self.get_how_many_elements(**k, offset=offset, pkt=pkt, raw=raw)))'
-        if it == want_it:
-            ctx.holds(rule, fi, 'for _ in range(count or 1)', 'count mode: range(count); until mode: one unconditional element', fl.lineno, clause='c')
-        else:
-            ctx.violation(rule, fi, 'for ... in %s' % it[:160], 'the count loop must iterate range(count) (and exactly once in until mode)', fl.lineno, clause='c')
-        for lp, name in ((fl, 'count loop'), (wl, 'until loop')):
-            n = lp.sub['phi']
-            for bp in lp.sub['body']:
-                if bp.end[0] != 'fall':
-                    ctx.violation(rule, fi, '%s body ends in %s' % (name, bp.end[0]), 'the loop can stop early or skip an element', lp.lineno, clause='c')
-                    continue
-                ups = [e for e in bp.effects if e.kind == 'call' and canon(e.call.func) == 'self.prototype_field.unpack']
-                apps = [e for e in bp.effects if e.kind == 'call' and isinstance(e.call.func, ast.Attribute) and e.call.func.attr == 'append']
-                st = '%s body: %s' % (name, '; '.join(e.text()[:60] for e in bp.effects if e.kind == 'call' and ('unpack' in e.text() or 'append' in e.text() or 'until' in e.text())))
-                if len(ups) != 1 or len(apps) != 1:
-                    ctx.violation(rule, fi, st[:300], 'each iteration must parse exactly one element and append it (%d parses, %d appends)' % (len(ups), len(apps)), lp.lineno, clause='c')
-                    continue
-                stored_list = [e for e in effs if e.kind == 'setattr' and canon(e.name) == 'self.field_name']
-                recv = apps[0].call.func.value if isinstance(apps[0].call.func, ast.Attribute) else None
-                if recv is None or not stored_list or canon(recv) != canon(stored_list[0].value):
-                    ctx.violation(rule, fi, st[:300], 'elements are appended to %s, which is not the list stored under the field name (%s)' % (canon(recv) if recv is not None else '?', canon(stored_list[0].value) if stored_list else '?'), lp.lineno, clause='a')
-                    continue
-                if bp.effects.index(apps[0]) < bp.effects.index(ups[0]):
-                    ctx.violation(rule, fi, st[:300], 'the element is appended before it is parsed (stale scratch value)', lp.lineno, clause='c')
-                    continue
-                av = apps[0].call.args[0] if apps[0].call.args else None
-                if av is None or canon(av) != canon(ast.parse('getattr(pkt, self.seq_elem_field_name)', mode='eval').body):
-                    ctx.violation(rule, fi, st[:300], 'the value appended is not the element just parsed into the scratch slot', lp.lineno, clause='c')
-                    continue
-                if name == 'until loop':
-                    unt = [e for e in bp.effects if is_cb_call(e, 'until_condition')]
-                    if len(unt) != 1 or bp.effects.index(unt[0]) < bp.effects.index(apps[0]):
-                        ctx.violation(rule, fi, st[:300], 'until must be evaluated once per element, after the element was appended', lp.lineno, clause='c')
-                        continue
-                    flag = None
-                    for c in lp.sub['carried']:
-                        v = bp.env.get(c)
-                        if v is not None and isinstance(v, ast.UnaryOp) and isinstance(v.op, ast.Not) and canon(v.operand) == canon(unt[0].call):
-                            flag = c
-                    if flag is None:
-                        ctx.violation(rule, fi, st[:300], 'the continue flag is not "not until(...)": the loop does not stop on the first truthy result', lp.lineno, clause='c')
-                        continue
-                    if lp.sub['test'] is None or canon(lp.sub['test']) != '%s@phi%d' % (flag, n):
-                        ctx.violation(rule, fi, 'while %s' % (canon(lp.sub['test']) if lp.sub['test'] is not None else None), 'the until loop must test the continue flag', lp.lineno, clause='c')
-                        continue
-                    if not all(a in canon(unt[0].call) for a in ('pkt=pkt', 'raw=raw')) or 'offset=offset@phi%d' % n not in canon(unt[0].call).replace('(offset@phi%d' % n, 'X'):
-                        # the until callback must see the cursor after the element
-                        pass
-                ctx.holds(rule, fi, '%s: one parse, append scratch value%s' % (name, ', then until once' if name == 'until loop' else ''), 'declared control semantics', lp.lineno, clause='c')
-        # initial flag between the loops
-        init = [e for e in effs if is_cb_call(e, 'until_condition')]
-        want_flag = '(False if (self.until_condition is None) else not self.until_condition('
-        found = False
-        for s in ast.walk(fi.node):
-            if isinstance(s, ast.Assign) and isinstance(s.value, ast.IfExp):
-                v = s.value
-                if isinstance(v.body, ast.Constant) and v.body.value is False and 'is None' in canon(v.test) and isinstance(v.orelse, ast.UnaryOp) and isinstance(v.orelse.op, ast.Not):
-                    found = True
-        if found and init and effs.index(init[0]) > effs.index(fl) and effs.index(init[0]) < effs.index(wl):
-            ctx.holds(rule, fi, 'flag = False if until is None else not until(...) (after the first element)', 'until is first evaluated after one element', fi.node.lineno, clause='c')
-        else:
-            ctx.violation(rule, fi, 'initial continue flag', 'until must first be evaluated after the unconditional first element, negated, and be False in count mode', fi.node.lineno, clause='c')
-        r = p.ret()
-        if r is None or '@phi%dout' % wl.sub['phi'] not in canon(r) or not canon(r).startswith('offset@'):
-            ctx.violation(rule, fi, 'returns %s' % (canon(r) if r is not None else None), 'the sequence must return the cursor after its last element', fi.node.lineno, clause='c')
-    if not saw_skip:
-        ctx.violation(rule, fi, 'Sequence.unpack', 'no path skips the sequence when its when condition is false', fi.node.lineno, clause='b')
-    if not saw_main:
-        ctx.violation(rule, fi, 'Sequence.unpack', 'no path parses elements', fi.node.lineno, clause='c')
+                    why = 'after [%s] the declared semantics requires [%s], which the code cannot do there' % (' '.join(trace[:-1]), trace[-1])
+                ctx.violation(rule, fi, '%s: %s' % (name, ' '.join(trace)[:300]), why, fi.node.lineno, clause='c')
 
 
 def check_sequence_pack(ctx, sq):
